@@ -146,12 +146,13 @@ def make_img(eng, nval, alphabet, nattr):
     vnone = [new_bool(eng, "vn%d" % i) for i in range(nattr)]
     src = new_str(eng, "src", 2, alphabet="a/ .")
     img_on = new_bool(eng, "html_image")
+    adm_on_other = new_bool(eng, "html_admonition_other")
     kind = new_int(eng, "kind", 0, 2)  # 0 <img ...>, 1 <img .../>, 2 img followed by <p>
     state = {}
 
     def wit(m):
         return {"src_state": eng.eval_model(m, src_state), "src": eng.eval_model(m, src), "attrs": [[a, eng.eval_model(m, v)] for a, v in state.get("attrs", [])],
-                "html_image": eng.eval_model(m, img_on), "kind": eng.eval_model(m, kind)}
+                "html_image": eng.eval_model(m, img_on), "kind": eng.eval_model(m, kind), "other_ext": eng.eval_model(m, adm_on_other)}
 
     eng.witness_fn = wit
 
@@ -173,13 +174,13 @@ def make_img(eng, nval, alphabet, nattr):
         state["attrs"] = attrs
         kd = eng.concretize_int(kind)
         on = bool(img_on)
-        check_img(eng, h2n, ph, opts_mod, attrs, kd, on)
+        check_img(eng, h2n, ph, opts_mod, attrs, kd, on, bool(adm_on_other))
         return kd
 
     return body
 
 
-def check_img(eng, h2n, ph, opts_mod, attrs, kd, on):
+def check_img(eng, h2n, ph, opts_mod, attrs, kd, on, other=False):
     from harness.c16_html_ast import apply_events
 
     events = [("startend" if kd == 1 else "start", "img", attrs)]
@@ -188,7 +189,7 @@ def check_img(eng, h2n, ph, opts_mod, attrs, kd, on):
     tree = apply_events(ph, events)
     h2n.tokenize_html = lambda text: tree
     text = "<the source text>"
-    r = StubRenderer(False, {"html_image"} if on else set())
+    r = StubRenderer(False, ({"html_image"} if on else set()) | ({"html_admonition"} if other else set()))
     try:
         out = h2n.html_to_nodes(text, 7, r)
     except Exception as exc:  # noqa
@@ -234,10 +235,11 @@ def make_admonition(eng, nval, alphabet):
     has_name = new_bool(eng, "has_name")
     title_kind = new_int(eng, "title_kind", 0, 4)  # 0 none, 1 <p class=title>, 2 <div class="admonition-title">, 3 <p class="subtitle">, 4 <p class="x title">
     on = new_bool(eng, "html_admonition")
+    img_other = new_bool(eng, "html_image_other")
     body_kind = new_int(eng, "body_kind", 0, 2)
     state = {}
     eng.witness_fn = lambda m: {"cls": eng.eval_model(m, state.get("cls", "")), "name": eng.eval_model(m, name_v) if eng.eval_model(m, has_name) else None,
-                               "title_kind": eng.eval_model(m, title_kind), "html_admonition": eng.eval_model(m, on), "body_kind": eng.eval_model(m, body_kind)}
+                               "title_kind": eng.eval_model(m, title_kind), "html_admonition": eng.eval_model(m, on), "body_kind": eng.eval_model(m, body_kind), "other_ext": eng.eval_model(m, img_other)}
 
     def body():
         from harness.c16_html_ast import apply_events
@@ -262,7 +264,7 @@ def make_admonition(eng, nval, alphabet):
         ev += [("end", "div")]
         tree = apply_events(ph, ev)
         h2n.tokenize_html = lambda text: tree
-        r = StubRenderer(False, {"html_admonition"} if bool(on) else set())
+        r = StubRenderer(False, ({"html_admonition"} if bool(on) else set()) | ({"html_image"} if bool(img_other) else set()))
         try:
             out = h2n.html_to_nodes("<src>", 3, r)
         except Exception as exc:  # noqa
@@ -525,7 +527,7 @@ def replay(label, witness):
                 attrs.append(("src", None))
             attrs += [tuple(a) for a in witness["attrs"] if a[0] != "src"]
             try:
-                check_img(ce, real, rph, ropts, attrs, witness["kind"], witness["html_image"])
+                check_img(ce, real, rph, ropts, attrs, witness["kind"], witness["html_image"], witness.get("other_ext", False))
             except _Fail as f:
                 return ("C17/%s:%s" % (f.label, _cls(attrs)), "<img> attributes %r: %s %s" % (attrs, f.label, f.detail))
             return None
@@ -563,7 +565,7 @@ def _replay_adm(real, rph, ropts, w):
     ev += [("end", "div")]
     tree = apply_events(rph, ev)
     real.tokenize_html = lambda text: tree
-    r = StubRenderer(False, {"html_admonition"} if w["html_admonition"] else set())
+    r = StubRenderer(False, ({"html_admonition"} if w["html_admonition"] else set()) | ({"html_image"} if w.get("other_ext") else set()))
     try:
         out = real.html_to_nodes("<src>", 3, r)
     except Exception as e:  # noqa
